@@ -18,6 +18,9 @@ from dataclasses import replace
 from pathlib import Path
 
 warnings.filterwarnings("ignore")
+import logging
+
+logging.disable(logging.CRITICAL)
 
 import numpy as np
 
@@ -82,12 +85,11 @@ def err_name(e):
 
 
 class Recorder:
-    """collects post-states of applied transitions and update() calls"""
+    """collects post-states of applied transitions and update() calls (in order)"""
 
     def __init__(self):
-        self.micro = []  # (transition, pre_state, post_state)
-        self.updates = []  # (obj, new_time)
-        self.jumps = []
+        self.micro = []  # (transition, pre_state, post_state, updates_during)
+        self.updates = []  # (obj, old_time, new_time)
 
     def take(self):
         m, u = self.micro, self.updates
@@ -101,14 +103,16 @@ _orig_update = StochasticTimeConfig.update
 
 
 def _wrapped_apply(loglevel, state, instance, transition):
+    n0 = len(_REC.updates)
     post = _orig_apply(loglevel, state, instance, transition)
-    _REC.micro.append((transition, state, post))
+    _REC.micro.append((transition, state, post, tuple(_REC.updates[n0:])))
     return post
 
 
 def _wrapped_update(self):
+    old = self.time
     _orig_update(self)
-    _REC.updates.append((self, self.time))
+    _REC.updates.append((self, old, self.time))
 
 
 def install_wrappers():
@@ -124,6 +128,7 @@ class CapturingCompiler(Compiler):
         self.last = (instance, init_state)
         try:
             self.header, self.sids = proto.header_lines(instance, init_state)
+            self.init_vals = {id(o): o.time for o in self.sids.objs}
             self.unrep = None
         except canon.Unrepresentable as e:
             self.header, self.sids, self.unrep = None, None, str(e)
@@ -170,7 +175,7 @@ class StepRecord:
 class Run:
     """one episode (possibly with several resets) on the real environment"""
 
-    def __init__(self, scen, step_timeout=20):
+    def __init__(self, scen, step_timeout=6):
         install_wrappers()
         self.scen = scen
         self.cmds, self.out, self.records = [], [], []
@@ -178,6 +183,14 @@ class Run:
         self.unrep = None
         self.env = None
         self.compile_error = None
+        self.snapshots = []
+        self.c14_findings, self.c19_findings, self.c20_findings = [], [], []
+        self.after_done = None
+        self.first_reset_canon = None
+        self.instance = None
+        self.init_state = None
+        self.init_vals = {}
+        self.stoch_objs = []
 
     # -- helpers
     def _guard(self, f):
@@ -217,23 +230,28 @@ class Run:
         self.cmds += hdr
         self.cmds.append(proto.cfg_line(c.get("allow_early", True), c.get("joker", 5), c.get("trunc_active", False),
                                         c.get("sparse", 1), c.get("dense", 0.001), c.get("trunc", -1),
-                                        sc.get("fuel", 20000), self.obs_kind))
+                                        sc.get("fuel", 3000), self.obs_kind))
         self.cmds.append("RESET")
         if err is not None:
             self.out.append("X " + err_name(err))
             rec.result = None
             return False
         self.env = env
+        self.instance = env.instance
+        self.init_state = self.compiler.last[1]
+        self.init_vals = dict(self.compiler.init_vals)
+        self.stoch_objs = list(self.compiler.sids.objs)
         self.out.append(f"L {env.lower_bound} {env.max_allowed_time}")
         self._emit_micro(micro)
         self.out += res_lines(env.state)
         self.out.append(obs_line(env.current_observation[0], self.obs_kind))
         rec.result, rec.env_state, rec.obs = env.state, env.state, env.current_observation[0]
         rec.terminated = rec.truncated = False
+        self.first_reset_canon = canon.state(env.state.state)
         return True
 
     def _emit_micro(self, micro):
-        for (_tr, _pre, post) in micro:
+        for (_tr, _pre, post, _upd) in micro:
             self.out.append("T " + canon.state(post))
 
     def act(self, a):
@@ -245,6 +263,8 @@ class Run:
         rec.offers_before = env.state.possible_transitions
         rec.time_before = env.state.state.time
         self.cmds.append(f"ACT {a if a in (0, 1) else 2}")
+        if len(self.snapshots) < 400:
+            self.snapshots.append((len(self.records), env.state.state, canon.state(env.state.state)))
         _REC.take()
         r, err = self._guard(lambda: env.step(a))
         rec.micro, rec.updates = _REC.take()
@@ -298,6 +318,166 @@ class Run:
             rec.env_state = r
         return True
 
+    # ------------------------------------------------------------------ probes
+    def probe_invalid(self, a):
+        """C14: an action outside Discrete(2) must be rejected and change nothing"""
+        env = self.env
+        from jobshoplab.utils.exceptions import ActionOutOfActionSpace
+        before = (canon.state(env.state.state), env.state, len(env.history), env.terminated, env.truncated,
+                  env.state_simulator.truncation_joker, env.state_simulator.stepper.no_op_counter,
+                  env.state_simulator.stepper.action_counter)
+        self.cmds.append("ACT 2")
+        r, err = self._guard(lambda: env.step(a))
+        _REC.take()
+        after = (canon.state(env.state.state), env.state, len(env.history), env.terminated, env.truncated,
+                 env.state_simulator.truncation_joker, env.state_simulator.stepper.no_op_counter,
+                 env.state_simulator.stepper.action_counter)
+        self.out.append("X " + (err_name(err) if err is not None else "NoError"))
+        if not isinstance(err, ActionOutOfActionSpace):
+            self.c14_findings.append({"sig": "invalid-action-not-rejected",
+                                      "detail": f"action {a!r}: {err_name(err) if err else 'accepted'}", "step": len(self.records)})
+            return err is None
+        if before[0] != after[0] or before[1] is not after[1] or before[2:] != after[2:]:
+            self.c14_findings.append({"sig": "invalid-action-changed-episode", "detail": f"action {a!r}",
+                                      "step": len(self.records)})
+        return True
+
+    def probe_after_done(self):
+        """C04/C14: stepping a finished episode raises the dedicated error"""
+        env = self.env
+        self.cmds.append("ACT 1")
+        r, err = self._guard(lambda: env.step(1))
+        _REC.take()
+        self.after_done = err_name(err) if err is not None else "NoError"
+        self.out.append("X " + self.after_done)
+
+    def probe_reset(self):
+        """C14: reset returns to the initial situation (no model involvement)"""
+        env = self.env
+        det = not self.stoch_objs
+        r, err = self._guard(lambda: env.reset())
+        _REC.take()
+        if err is not None:
+            self.c14_findings.append({"sig": "reset-raised", "detail": err_name(err), "step": None})
+            return
+        if env.history != () or env.terminated or env.truncated or env.done:
+            self.c14_findings.append({"sig": "reset-did-not-clear", "detail": f"history {len(env.history)} flags {env.terminated},{env.truncated},{env.done}", "step": None})
+        if det and canon.state(env.state.state) != self.first_reset_canon:
+            self.c14_findings.append({"sig": "reset-state-differs-from-initial", "detail": "", "step": None})
+        if env.state_simulator.truncation_joker != int(self.scen["cfg"].get("joker", 5)):
+            self.c14_findings.append({"sig": "reset-did-not-restore-allowance", "detail": "", "step": None})
+        if not env.observation_space.contains(r[0]) and False:
+            pass
+
+    def probe_c20(self, rnd):
+        """C20: purity / repeatability / atomic rejection through the core step API"""
+        env = self.env
+        from jobshoplab.types.action_types import ComponentTransition
+        from jobshoplab.types.state_types import MachineStateState as MS, TransportStateState as TS
+        st = env.state.state
+        offers = list(env.state.possible_transitions)
+        text0 = canon.state(st)
+        det = not self.stoch_objs
+        # (1) repeatability with an offered conflict-free set
+        chosen = conflict_free(offers, rnd)
+        if det and chosen:
+            ok1 = self.sm_step(chosen, tm=1)
+            r1 = self.records[-1].result
+            ok2 = self.sm_step(chosen, tm=1)
+            r2 = self.records[-1].result
+            if ok1 and ok2 and (r1.state != r2.state or r1.success != r2.success or r1.possible_transitions != r2.possible_transitions):
+                self.c20_findings.append({"sig": "same-step-twice-differs", "detail": f"{chosen}", "step": len(self.records)})
+            if canon.state(st) != text0 or env.state.state is not st:
+                self.c20_findings.append({"sig": "input-state-mutated", "detail": f"{chosen}", "step": len(self.records)})
+        # (2) atomic rejection: mix offered transitions with phase-invalid ones
+        bad = []
+        touched = {t.component_id for t in chosen}
+        for m in st.machines:
+            if m.id in touched:
+                continue
+            wrong = {MS.IDLE: [MS.WORKING, MS.OUTAGE, MS.IDLE], MS.SETUP: [MS.OUTAGE, MS.IDLE, MS.SETUP],
+                     MS.WORKING: [MS.SETUP, MS.IDLE, MS.WORKING], MS.OUTAGE: [MS.SETUP, MS.WORKING, MS.OUTAGE]}[m.state]
+            jid = m.buffer.store[0] if m.buffer.store else (st.jobs[0].id if st.jobs else None)
+            bad.append(ComponentTransition(m.id, rnd.choice(wrong), jid))
+        for t in st.transports:
+            if t.id in touched:
+                continue
+            wrong = {TS.IDLE: [TS.OUTAGE, TS.IDLE], TS.OUTAGE: [TS.PICKUP, TS.TRANSIT, TS.OUTAGE, TS.WAITINGPICKUP],
+                     TS.PICKUP: [TS.IDLE, TS.PICKUP], TS.TRANSIT: [TS.IDLE, TS.TRANSIT], TS.WAITINGPICKUP: [TS.IDLE],
+                     TS.WORKING: [TS.IDLE]}[t.state]
+            bad.append(ComponentTransition(t.id, rnd.choice(wrong), t.transport_job or (st.jobs[0].id if st.jobs else None)))
+        if bad:
+            k = rnd.randint(1, min(3, len(bad)))
+            mix = list(chosen) + [rnd.choice(bad) for _ in range(k)]
+            rnd.shuffle(mix)
+            ok = self.sm_step(mix, tm=rnd.choice([1, 2]))
+            r = self.records[-1].result
+            if ok:
+                if r.success or r.state is not st or r.state != st or tuple(r.possible_transitions) != ():
+                    self.c20_findings.append({"sig": "rejected-action-had-effect",
+                                              "detail": f"mix {mix}: success={r.success} same_state={r.state == st} offers={len(r.possible_transitions)}",
+                                              "step": len(self.records)})
+            if canon.state(st) != text0:
+                self.c20_findings.append({"sig": "input-state-mutated", "detail": "after rejected mix", "step": len(self.records)})
+
+    def probe_env_failure(self):
+        """C20: a failed step makes the environment truncate and keep its state (injected failure)"""
+        env = self.env
+        from jobshoplab.types.action_types import ComponentTransition
+        from jobshoplab.types.state_types import MachineStateState as MS
+        sim = env.state_simulator
+        orig = sim.state_machine_step
+        st = env.state
+        m = st.state.machines[0]
+        badns = MS.IDLE if m.state != MS.OUTAGE else MS.SETUP
+        bad = ComponentTransition(m.id, badns, None)
+
+        def failing(state, action):
+            from dataclasses import replace as _r
+            return orig(state=state, action=_r(action, transitions=tuple(action.transitions) + (bad,)))
+
+        sim.state_machine_step = failing
+        try:
+            r, err = self._guard(lambda: env.step(1))
+        finally:
+            sim.state_machine_step = orig
+        _REC.take()
+        if err is not None:
+            self.c20_findings.append({"sig": "failed-step-raised", "detail": err_name(err), "step": None})
+        else:
+            obs, rew, term, trunc, info = r
+            if not trunc or term or env.state is not st:
+                self.c20_findings.append({"sig": "failed-step-not-truncated", "detail": f"terminated={term} truncated={trunc} state kept={env.state is st}", "step": None})
+
+    def multi_step(self, rnd):
+        """apply a conflict-free set of offered transitions through the core API and adopt the result"""
+        env = self.env
+        chosen = conflict_free(list(env.state.possible_transitions), rnd)
+        if len(self.snapshots) < 400:
+            self.snapshots.append((len(self.records), env.state.state, canon.state(env.state.state)))
+        ok = self.sm_step(chosen, tm=rnd.choice([1, 1, 2]), adopt=True)
+        if not ok:
+            return False
+        r = self.records[-1].result
+        if not r.success or r.message == "Done" or len(r.possible_transitions) == 0:
+            return False
+        return True
+
     def end(self):
         self.cmds.append("END")
         self.out.append("E")
+
+
+def conflict_free(offers, rnd, p=0.7):
+    """a random subset of the offers sharing no component and no job"""
+    offers = list(offers)
+    rnd.shuffle(offers)
+    out, comps, jobs = [], set(), set()
+    for t in offers:
+        if t.component_id in comps or t.job_id in jobs:
+            continue
+        if rnd.random() < p:
+            out.append(t)
+            comps.add(t.component_id)
+            jobs.add(t.job_id)
+    return out
